@@ -1,4 +1,4 @@
-//@@ unit c16_loop properties=C16
+//@@ unit c16_loop properties=C16,C07
 #![allow(unused_imports, dead_code, unused_variables, unused_mut, unused_assignments)]
 #![feature(allocator_api)]
 use vstd::prelude::*;
@@ -114,6 +114,14 @@ pub fn stream_openresponses_request<'a>(req: OpenResponsesStreamRequest<'a>) -> 
 #[verifier::external_body] pub fn rejected_tool_invocation_events(sid: &str, seq: &mut u64, inv: &ToolInvocation, call_id: &str, error: &str) -> Vec<Event> { unimplemented!() }
 #[verifier::external_body] pub fn tool_events_to_function_call_output(name: &str, events: &Vec<Event>) -> Value { unimplemented!() }
 #[verifier::external_body] pub fn summarize_continuity_tool_side_effects(events: &Vec<Event>) -> Option<ToolSideEffects> { unimplemented!() }
+// side effects of mutating tools that still have to be recorded on the thread (runs attached to a thread only)
+pub tracked struct Pending { pub ghost n: int }
+#[verifier::external_body] pub fn summarize_t(Tracked(se): Tracked<&mut Pending>, linked: bool, events: &Vec<Event>) -> (r: Option<ToolSideEffects>)
+    ensures final(se).n == old(se).n + (if r is Some && linked { 1int } else { 0int }),
+{ unimplemented!() }
+#[verifier::external_body] pub fn append_side_effects_t(Tracked(se): Tracked<&mut Pending>, c: &ContinuityStore, run: &ContinuityRunLink, sid: &str, e: ToolSideEffects) -> (r: Result<String, String>)
+    ensures final(se).n == old(se).n - 1,
+{ unimplemented!() }
 #[verifier::external_body]
 pub fn function_call_output_item(call_id: &str, output: String, stateless: bool) -> (r: ItemParam) ensures r.answers() == call_id@ { unimplemented!() }
 
@@ -132,13 +140,19 @@ pub open spec fn is_prefix<T>(a: Seq<T>, b: Seq<T>) -> bool { a.len() <= b.len()
 
 //@@ fn crates/ripd/src/session.rs run_openresponses_agent_loop rules=R3,R4,R9 attr=verifier::exec_allows_no_decreases_clause
 //@@ rewrite let mut collector = ToolCallCollector::default(); ==>> proof { assert(stateless_history ==> is_prefix(last_input, payload.input)); last_input = payload.input; } let mut collector = ToolCallCollector::default();
+//@@ rewrite OpenResponsesRunContext<'_> ==>> OpenResponsesRunContext<'_>, Tracked(se): Tracked<&mut Pending>
+//@@ rewrite summarize_continuity_tool_side_effects(&tool_events) ==>> summarize_t(Tracked(&mut *se), continuity_run.is_some(), &tool_events)
+//@@ rewrite continuities.append_tool_side_effects( ==>> append_side_effects_t(Tracked(&mut *se), continuities,
 //@@ sig
+    requires old(se).n == 0,
+    ensures final(se).n == 0,      // [loop.the_side_effects_of_every_mutating_tool_run_are_recorded_on_the_thread_before_the_loop_returns]
 //@@ entry
     let ghost mut last_input: Seq<ItemParam> = Seq::empty();      // the input of the request sent last
     let ghost mut sent_history: Seq<ItemParam> = Seq::empty();
     let ghost mut handled: int = 0;       // every call item taken from a provider batch (executed or refused)
 //@@ loop 0
     invariant
+        se.n == 0,
         handled == tool_call_count && tool_call_count <= DEFAULT_MAX_TOOL_CALLS,                                      // [loop.tool_calls_bounded]
         stateless_history == config.stateless_history,
         // stateless mode: the history a request is built from only ever grows
@@ -155,9 +169,11 @@ pub open spec fn is_prefix<T>(a: Seq<T>, b: Seq<T>) -> bool { a.len() <= b.len()
     proof { sent_history = history_items@; }
 //@@ loop 1 iter=it1
     invariant
+        se.n == 0,
         is_prefix(sent_history, history_items@), stateless_history ==> is_prefix(last_input, history_items@), initial_request_items is None,
 //@@ loop 2 iter=it2
     invariant
+        se.n == 0,
         handled == tool_call_count && tool_call_count <= DEFAULT_MAX_TOOL_CALLS,          // [loop.tool_calls_bounded]
         is_prefix(sent_history, history_items@), stateless_history ==> is_prefix(last_input, history_items@), initial_request_items is None,
         it2.snapshot@.remaining() == tool_calls@,
